@@ -8,6 +8,7 @@ import (
 	"strings"
 	"sync"
 	"sync/atomic"
+	"syscall"
 	"testing"
 	"time"
 
@@ -742,7 +743,7 @@ func TestC14(t *testing.T) {
 	rep := vh.NewReport("C14")
 	defer rep.Finish(t)
 	rep.Rule("fault sequences per endpoint kind with the reconnect period shortened to 40 ms through the verif hook: TCP client (peer closes orderly / by reset / in the middle of a frame after 0..3 frames, " +
-		"listener down for 200-450 ms > read timeout so that connection attempts fail, 2..20 consecutive failures), serial through a fake opener (persistent read error at an item boundary or mid-frame, " +
+		"listener down for 200-450 ms > read timeout so that connection attempts fail, connection attempts that time out against a full backlog-0 accept queue, 2..20 consecutive failures), serial through a fake opener (persistent read error at an item boundary or mid-frame, " +
 		"1..4 failed opens in between), custom (one-shot read error), TCP/UDP servers with 3..20 peers connecting, failing and staying; idle expiry on TCP/UDP client and server (frame every T/10 for 6 T, then silence; T = 300 ms); " +
 		"pkg/timednetconn alone on a recording net.Conn. Oracles: cause in the close event, strict open/close alternation with fresh channel objects, reconnection after every failure (no-progress criterion), " +
 		"back-off lower bound from the delivery of the close event, serial port closed before the next open, one channel per peer labelled with its address, idle closed / active not closed, " +
@@ -760,22 +761,109 @@ func TestC14(t *testing.T) {
 			f()
 		}
 	}
-	for i := 0; i < vh.Pick(4, 40); i++ {
+	for i := 0; i < vh.Pick(4, 160); i++ {
 		i := i
 		run(func() { c14tcpClient(rep, seed, i) })
 		run(func() { c14serial(rep, seed, i) })
 		run(func() { c14custom(rep, seed, i) })
 		run(func() { c14servers(rep, seed, i) })
 	}
-	for i := 0; i < vh.Pick(1, 4); i++ {
+	for i := 0; i < vh.Pick(1, 10); i++ {
 		for _, kind := range []string{"tcp-server", "udp-server", "tcp-client", "udp-client"} {
 			i, kind := i, kind
 			run(func() { c14idle(rep, seed, i, kind) })
 		}
+	}
+	for i := 0; i < vh.Pick(1, 6); i++ {
+		i := i
+		run(func() { c14dialTimeout(rep, seed, i) })
 	}
 	if shard == 0 {
 		c14timed(rep, seed)
 	}
 	rep.Sample(map[string]interface{}{"tcp-client": "accept, 2 frames, reset; listener down 320 ms; accept, half a frame, close; ...", "idle": "udp-server: frame every 30 ms for 1.8 s, then silence"})
 	var _ = io.EOF
+}
+
+// c14dialTimeout: connection attempts that get NO answer (they time out after ReadTimeout instead of being refused)
+// are failed connection attempts too: the client must keep retrying and connect once the server answers again.
+func c14dialTimeout(rep *vh.Report, seed uint64, idx int) {
+	fd, err := syscall.Socket(syscall.AF_INET, syscall.SOCK_STREAM, 0)
+	if err != nil {
+		rep.Inconclusive("C14 dial-timeout: no raw socket")
+		return
+	}
+	defer syscall.Close(fd)
+	_ = syscall.SetsockoptInt(fd, syscall.SOL_SOCKET, syscall.SO_REUSEADDR, 1)
+	if err := syscall.Bind(fd, &syscall.SockaddrInet4{Port: 0, Addr: [4]byte{127, 0, 0, 1}}); err != nil {
+		rep.Inconclusive("C14 dial-timeout: bind: " + err.Error())
+		return
+	}
+	if err := syscall.Listen(fd, 0); err != nil { // backlog 0: one queued connection, further SYNs are dropped
+		rep.Inconclusive("C14 dial-timeout: listen: " + err.Error())
+		return
+	}
+	sa, _ := syscall.Getsockname(fd)
+	port := sa.(*syscall.SockaddrInet4).Port
+	addr := fmt.Sprintf("127.0.0.1:%d", port)
+	// fill the accept queue
+	var fillers []net.Conn
+	for i := 0; i < 3; i++ {
+		c, err := (&net.Dialer{Timeout: 150 * time.Millisecond}).Dial("tcp4", addr)
+		if err != nil {
+			break // queue full: this dial hung
+		}
+		fillers = append(fillers, c)
+	}
+	defer func() {
+		for _, c := range fillers {
+			c.Close()
+		}
+	}()
+	// sanity: a dial must hang now, otherwise the scenario does not apply on this kernel
+	if c, err := (&net.Dialer{Timeout: 150 * time.Millisecond}).Dial("tcp4", addr); err == nil {
+		c.Close()
+		rep.Inconclusive("C14 dial-timeout: the kernel still accepts connections with a full backlog-0 queue")
+		return
+	}
+	node := &gomavlib.Node{Endpoints: []gomavlib.EndpointConf{gomavlib.EndpointTCPClient{Address: addr}}, Dialect: testDialect, OutVersion: gomavlib.V2, OutSystemID: 36,
+		HeartbeatDisable: true, ReadTimeout: 200 * time.Millisecond, IdleTimeout: 3 * time.Second}
+	if err := node.Initialize(); err != nil {
+		rep.HarnessError(err.Error())
+		return
+	}
+	life := watchLife(node)
+	// let at least two attempts time out, then start answering
+	time.Sleep(700 * time.Millisecond)
+	if life.count(true) != 0 {
+		rep.Inconclusive("C14 dial-timeout: the node connected although the queue was full")
+		node.Close()
+		<-life.done
+		return
+	}
+	stop := make(chan struct{})
+	go func() {
+		for {
+			select {
+			case <-stop:
+				return
+			default:
+			}
+			nfd, _, err := syscall.Accept(fd)
+			if err != nil {
+				return
+			}
+			defer syscall.Close(nfd)
+		}
+	}()
+	ok := waitFor(func() bool { return life.count(true) >= 1 }, func() int64 { return int64(time.Now().UnixNano() / int64(3*time.Second)) }, 3*time.Second)
+	if !ok {
+		rep.Violation("ep=tcp-client what=no-reconnect", "after connection attempts that timed out (no answer for ReadTimeout) the client endpoint never connected although the server answers again", nil)
+	}
+	close(stop)
+	node.Close()
+	<-life.done
+	rep.Eval(1)
+	rep.Count("dial_timeout_runs", 1)
+	rep.Distinct("dialtimeout", idx)
 }
